@@ -77,6 +77,29 @@ func (c *Ctx) errflowFunc(f *ssa.Function, exc map[string]string) {
 			c.exc(rule, key, pos, why)
 			return
 		}
+		// the statement was moved, with its reasoned exception, into an unexported helper of the function the
+		// exception names (extract-method): the same construct, the same reason (ordinals may shift)
+		if caller := soleCaller(f); caller != nil && strings.HasPrefix(key, fnName(f)+" ") {
+			base := fnName(caller) + strings.TrimPrefix(key, fnName(f))
+			if i := strings.LastIndex(base, "#"); i > 0 {
+				base = base[:i]
+			}
+			var cands []string
+			for k := range exc {
+				kb := k
+				if i := strings.LastIndex(kb, "#"); i > 0 {
+					kb = kb[:i]
+				}
+				if kb == base || eraseNames(kb) == eraseNames(base) {
+					cands = append(cands, k)
+				}
+			}
+			if len(cands) > 0 {
+				sort.Strings(cands)
+				c.exc(rule, key, pos, exc[cands[0]]+" [exception of the same construct in "+fnName(caller)+", whose helper this is]")
+				return
+			}
+		}
 		c.bad(rule, key, pos, badMsg)
 	}
 	// R-deadwrap: an error value is constructed (fmt.Errorf / errors.New) and goes nowhere: its only
